@@ -419,6 +419,7 @@ fn completed_idx(responses: &[Resp]) -> usize {
 
 pub fn property() -> Property {
     Property {
+        fuzz: vec![],
         id: "C07",
         rule: "cases = INVITE (Request-URI shapes incl. IPv6/params, From/To with display names, 0..3 Route values, optional Via sent-by override, random Call-ID/CSeq) x reliable/unreliable x 1..5 scripted responses (any class, To-tag none/3 tags, offsets around 32 s and 64*T1) under a paused clock. Non-trivial = INVITE carries a Route, or finals with different To-tags, or a retransmitted final; distinct by hash of the case.",
         assumptions: vec![
